@@ -52,6 +52,11 @@ pub enum SectionKind {
     TwoNameBinary,
     /// `diff.submodule = log`: "Submodule path 123..456:" followed by commit summary lines
     SubmoduleLog,
+    /// `git diff` during a merge: combined diff whose hunk holds a conflict region
+    /// (<<<<<<< / optional ||||||| / ======= / >>>>>>>); only the concatenation check uses it
+    CombinedConflict,
+    /// the same, but the section ends inside the conflict region (no closing marker)
+    CombinedConflictOpen,
 }
 
 pub const ALL_SECTION_KINDS: &[SectionKind] = &[
@@ -72,6 +77,32 @@ pub const ALL_SECTION_KINDS: &[SectionKind] = &[
     SectionKind::RenamedBinary,
     SectionKind::TwoNameBinary,
     SectionKind::SubmoduleLog,
+];
+
+/// The kinds above plus those that only the concatenation check (C10) uses: delta holds a whole
+/// conflict region back by design, which the streaming bound (C11) does not cover.
+pub const ALL_SECTION_KINDS_C10: &[SectionKind] = &[
+    SectionKind::Modified,
+    SectionKind::ModifiedEndsChanged,
+    SectionKind::Added,
+    SectionKind::Deleted,
+    SectionKind::RenamedPure,
+    SectionKind::RenamedChanged,
+    SectionKind::Copied,
+    SectionKind::ModeOnly,
+    SectionKind::ModeAndChange,
+    SectionKind::Binary,
+    SectionKind::SubmoduleShort,
+    SectionKind::EmptyNew,
+    SectionKind::CombinedModified,
+    SectionKind::CombinedBinary,
+    SectionKind::RenamedBinary,
+    SectionKind::TwoNameBinary,
+    SectionKind::SubmoduleLog,
+    SectionKind::CombinedConflict,
+    // CombinedConflictOpen (a section that ends inside a conflict region) is not in the list: it is
+    // not a complete file diff, and what delta should do with the lines it has buffered when the
+    // next section begins is not something the property decides
 ];
 
 #[derive(Clone, Copy, Debug, PartialEq, Eq, Serialize, Deserialize)]
@@ -450,6 +481,43 @@ impl<'a> Gen<'a> {
                 self.hunks(p, section, 2, None, ec);
                 return;
             }
+            CombinedConflict | CombinedConflictOpen => {
+                meta(self, format!("diff --cc {}", a));
+                let h3 = self.hex(7);
+                meta(self, format!("index {},{}..0000000", h1, h3));
+                meta(self, format!("--- a/{}", a));
+                meta(self, format!("+++ b/{}", a));
+                let start = self.rng.range(1, 400);
+                let fnname = self.token();
+                self.push(format!("@@@ -{},7 -{},7 +{},15 @@@ fn {}()", start, start, start, fnname), LineKind::HunkHeader, None, section, 1);
+                let diff3 = self.rng.chance(1, 2);
+                let mut body = |g: &mut Gen, pfx: &str, n: usize, kind: LineKind| {
+                    for _ in 0..n {
+                        let t = g.token();
+                        let text = g.body_text(&t, p.multibyte, None);
+                        g.push(format!("{}{}", pfx, text), kind, Some(t), section, 1);
+                    }
+                };
+                let n0 = self.rng.range(0, 2);
+                body(self, "  ", n0, LineKind::Context);
+                self.push("++<<<<<<< HEAD".into(), LineKind::Plus, None, section, 1);
+                let n1 = self.rng.range(0, 3);
+                body(self, " +", n1, LineKind::Plus);
+                if diff3 {
+                    self.push(format!("++||||||| {}", h2), LineKind::Plus, None, section, 1);
+                    let n2 = self.rng.range(0, 2);
+                    body(self, "++", n2, LineKind::Plus);
+                }
+                self.push("++=======".into(), LineKind::Plus, None, section, 1);
+                let n3 = self.rng.range(0, 3);
+                body(self, "+ ", n3, LineKind::Plus);
+                if kind == CombinedConflict {
+                    self.push("++>>>>>>> topic".into(), LineKind::Plus, None, section, 1);
+                    let n4 = self.rng.range(0, 2);
+                    body(self, "  ", n4, LineKind::Context);
+                }
+                return;
+            }
             CombinedBinary => {
                 meta(self, format!("diff --cc {}", a));
                 let h3 = self.hex(7);
@@ -559,7 +627,7 @@ impl<'a> Gen<'a> {
                 meta(self, "new file mode 100644".into());
                 meta(self, "index 0000000..e69de29".into());
             }
-            CombinedModified | CombinedBinary | RenamedBinary | TwoNameBinary | SubmoduleLog => {}
+            CombinedModified | CombinedBinary | RenamedBinary | TwoNameBinary | SubmoduleLog | CombinedConflict | CombinedConflictOpen => {}
         }
     }
 
